@@ -387,3 +387,41 @@ package writer
 //@   privatecaptures
 //@   ensures [index-advanced-once-per-element] implies(*finalErr == nil, *i == old(*i) + 1)
 //@ end
+
+// C03 (persistent-query results equal a raw search): the ingest-time matcher
+// evaluates a column's last record as cbuf[cstartidx:cbufidx]
+// (ColWip.getLastRecord).  When an event lacks a column, the back-fill record
+// appended for it must be that window: the window starts where the record is
+// appended (not at the previous event's value).
+//@ func (*SegStore).doLogEventFilling
+//@   props C03
+//@   assumecalleerequires
+//@   note under contract for the site assertion only; the preconditions of encodeTime / updateColValueSizeInAllSeenColumns at its calls (well-formed open block, non-nil maps) are assumed here
+//@   site call colWip.cbuf.Append #7:
+//@     assert [last-record-window-is-the-backfill-record] colWip.cstartidx == colWip.cbufidx
+//@ end
+
+// C01 (late-appearing columns): PackDictEnc writes deCount as the number of
+// dictionary words and then every entry of deMap, and the reader stops after
+// deCount words.  deCount therefore has to grow with every word that enters
+// the map.  backFillPastRecords runs once for a column that first appears in
+// the middle of a block: it registers the back-fill word (one new entry) and
+// must count it.
+//@ func initMicroIndices
+//@   assumed
+//@   modifies mapof(colBlooms), mapof(colRis)
+//@   note frame only: creates the bloom / range index of one column
+//@ end
+//@ func (*SegStore).StoreSegmentError
+//@   assumed
+//@   modifies segStore.SegmentErrors
+//@ end
+
+//@ func (*SegStore).backFillPastRecords
+//@   props C01
+//@   requires colWip != nil && colWip.deData != nil && colWip.cbuf != nil
+//@   ensures [backfill-word-is-counted] colWip.deData.deCount == old(colWip.deData.deCount) + 1
+//@   ensures [every-past-record-filled] result == uint32(recNum) && colWip.cbufidx == old(colWip.cbufidx) + uint32(recNum)
+//@   loop 1:
+//@     invariant i <= recNum && colWip.cbufidx == old(colWip.cbufidx) + uint32(i) && colWip.deData == old(colWip.deData) && colWip.deData.deCount == old(colWip.deData.deCount)
+//@ end
